@@ -1,8 +1,8 @@
 (* C01 (expression-lowering slice) - syntax.
    Source side: the checked AST of crates/samlang-ast/src/source.rs `expr::E`, the forms that
    `ExpressionLoweringManager::lower` (crates/samlang-compiler/src/hir_lowering.rs 205-239) dispatches on,
-   without Match, `if let` and `let` with a nested / object pattern (outside this slice; Match / patterns are
-   C01pat's).  What the lowering reads of the types is made explicit in the term:
+   all of them; patterns are C01pat's `pat` (Match, `if let`, `let p`), with a bare variable pattern allowed only in
+   `let x` (Syntax.top_ok).  What the lowering reads of the types is made explicit in the term:
      * a call carries `void` = "the type of the call expression is unit" (lower_fn_call, is_void_return);
      * a method access / call carries the HIR function name create_hir_function_name computes from the type of the
        receiver; a tuple carries the class whose `init` is called;
@@ -12,6 +12,9 @@
 From Coq Require Import ZArith NArith List Bool.
 Import ListNotations.
 From SV Require Import Common.Int32.
+(* patterns are C01pat's (pat, binders, bindings_of, wf, wfb, shape_ok ..); the names this file defines afterwards
+   (expr, EInt, EVar, ONE, ZERO, memb, ..) take precedence over the ones of that file *)
+From SV Require Export C01pat.Syntax.
 
 Notation name := N (only parsing).
 (* a string literal as it is written between the quotes (bytes; escape sequences are not decoded here:
@@ -22,8 +25,8 @@ Notation str := (list N) (only parsing).
    one StructInit of its parameters; tuples are instances of such classes).  FConcat: Str.concat of the runtime
    library (what `::` is lowered to).  FUser: every other function; answered by the world.  FLam l: the synthetic function made for the lambda expression l
    (create_synthetic_lambda_function); also answered by the world - that it behaves like the body is a theorem about
-   Lower.lambda_fn. *)
-Inductive fname := FUser (f : N) | FInit (c : N) | FConcat | FLam (l : N).
+   Lower.lambda_fn.  FPanic: Process.panic (the fall-through of a lowered match calls it); answered by the world. *)
+Inductive fname := FUser (f : N) | FInit (c : N) | FConcat | FLam (l : N) | FPanic.
 
 Inductive unop := UNot | UNeg.
 
@@ -46,6 +49,10 @@ Inductive expr :=
 | ETuple (c : N) (es : exprs)
 | EIf (c : expr) (e1 e2 : expr)                 (* IfElse with an Expression condition; e1 is a block, e2 a block or an if *)
 | EBlock (b : blk)
+| EMatch (e : expr) (cases : arms)               (* Match: the arms in written order *)
+| EIfLet (p : pat) (bs : list name) (e : expr) (e1 e2 : expr)
+                                                (* IfElse with a Guard condition `if let p = e`; bs = the keys of
+                                                   p.bindings() in the order the lowering iterates them *)
 | ELambda (l : N) (caps : list name) (params : list name) (body : expr)
                                                 (* Lambda: l identifies the expression (the tie gives it the number of
                                                    its synthetic function); caps = the keys of `captured` in the order
@@ -53,6 +60,9 @@ Inductive expr :=
 with exprs :=
 | ENil
 | ECons (e : expr) (es : exprs)
+with arms :=
+| ANil
+| ACons (p : pat) (bs : list name) (body : expr) (rest : arms)
 with blk :=                                     (* the statements of a block and its final expression *)
 | BEndU                                         (* no final expression: unit *)
 | BEndE (e : expr)
@@ -61,12 +71,15 @@ with blk :=                                     (* the statements of a block and
                                                 (* `let (p0, .., pm) = e;` with every p a variable or `_`;
                                                    bs = the keys of pattern.bindings() in the order the lowering
                                                    iterates them (a BTreeMap) *)
+| BLetP (p : pat) (bs : list name) (e : expr) (b : blk)
+                                                (* `let p = e;` with any pattern (lowered through C01pat's lower_guard) *)
 | BExp (e : expr) (b : blk).                    (* `e;` *)
 
 Scheme expr_mind := Induction for expr Sort Prop
 with exprs_mind := Induction for exprs Sort Prop
+with arms_mind := Induction for arms Sort Prop
 with blk_mind := Induction for blk Sort Prop.
-Combined Scheme syntax_mind from expr_mind, exprs_mind, blk_mind.
+Combined Scheme syntax_mind from expr_mind, exprs_mind, arms_mind, blk_mind.
 
 Fixpoint exprs_of (l : list expr) : exprs :=
   match l with [] => ENil | e :: t => ECons e (exprs_of t) end.
@@ -97,6 +110,8 @@ Inductive hstmt :=
 | HAssign (x : name) (e : hexpr)                                  (* LateInitAssignment *)
 | HClosure (x : name) (f : fname) (ctx : hexpr)                   (* ClosureInit *)
 | HStruct (x : name) (es : list hexpr)                            (* StructInit (the context of a lambda) *)
+| HDestr (e : hexpr) (tag : nat) (bs : list (option name)) (s1 s2 : list hstmt) (fas : list fassign)
+                                                                  (* ConditionalDestructure *)
 | HUnreachable.          (* the lowering itself panics here (`unwrap()` on a callee that is not a variable) *)
 
 (* ------------------------------------------------------------------ names bound inside an expression *)
@@ -113,18 +128,37 @@ Fixpoint bv (e : expr) : list name :=
   | ETuple _ es => bvs es
   | EIf c e1 e2 => bv c ++ bv e1 ++ bv e2
   | EBlock b => bvb b
+  | EMatch e cs => bv e ++ bva cs
+  | EIfLet _ bs e e1 e2 => bv e ++ bs ++ bv e1 ++ bv e2
   | ELambda _ _ _ _ => []          (* the body is lowered by a manager of its own: nothing reaches the enclosing scopes *)
   end
 with bvs (es : exprs) : list name :=
   match es with ENil => [] | ECons e t => bv e ++ bvs t end
+with bva (cs : arms) : list name :=
+  match cs with ANil => [] | ACons _ bs body t => bva t ++ bs ++ bv body end
 with bvb (b : blk) : list name :=
   match b with
   | BEndU => []
   | BEndE e => bv e
   | BLet x e b => bv e ++ (match x with Some x => [x] | None => [] end) ++ bvb b
   | BLetT bs _ e b => bv e ++ bs ++ bvb b
+  | BLetP _ bs e b => bv e ++ bs ++ bvb b
   | BExp e b => bv e ++ bvb b
   end.
+
+(* The pattern of a match arm, an `if let` or a `let p`: what the checker guarantees and C01pat's theorems ask for -
+   or-alternatives bind the same names (wf), the keys are distinct and cover the variables; and, for this slice, the
+   pattern is structured at the top or a wildcard (a bare variable pattern assigns the matched EXPRESSION, which the
+   pattern model can only name when it is a variable or an int literal; `let x = e` has its own form BLet) *)
+Fixpoint structured (p : pat) : bool :=
+  match p with
+  | PTuple _ | PObject _ | PVariant _ _ => true
+  | POr ps => match ps with [] => false | _ => forallb structured ps end
+  | PWild | PVar _ => false
+  end.
+Definition top_ok (p : pat) : bool := match p with PWild => true | _ => structured p end.
+Definition site_ok (D : list name) (p : pat) (bs : list name) : Prop :=
+  wf p /\ NoDup bs /\ incl (binders p) bs /\ (forall x, In x bs -> ~ In x D) /\ top_ok p = true.
 
 (* No `let` rebinds a name that is in scope where it stands (D = the names in scope).  The checker enforces it
    (ssa_analysis.rs define_id: "name already bound" when the name is found in any enclosing scope); the tie
@@ -142,10 +176,14 @@ Fixpoint ns (D : list name) (e : expr) : Prop :=
   | ETuple _ es => nss D es
   | EIf c e1 e2 => ns D c /\ ns D e1 /\ ns D e2
   | EBlock b => nsb D b
+  | EMatch e cs => ns D e /\ nsa D cs
+  | EIfLet p bs e e1 e2 => ns D e /\ site_ok D p bs /\ ns (bs ++ D) e1 /\ ns (bs ++ D) e2
   | ELambda _ _ _ _ => True        (* the body has its own statement: nsL *)
   end
 with nss (D : list name) (es : exprs) : Prop :=
   match es with ENil => True | ECons e t => ns D e /\ nss D t end
+with nsa (D : list name) (cs : arms) : Prop :=
+  match cs with ANil => True | ACons p bs body t => site_ok D p bs /\ ns (bs ++ D) body /\ nsa D t end
 with nsb (D : list name) (b : blk) : Prop :=
   match b with
   | BEndU => True
@@ -155,6 +193,7 @@ with nsb (D : list name) (b : blk) : Prop :=
   | BLetT bs els e b =>
       (* the keys are distinct, are exactly the variables of the pattern, and none is visible *)
       ns D e /\ NoDup bs /\ (forall x, In (Some x) els <-> In x bs) /\ (forall x, In x bs -> ~ In x D) /\ nsb (bs ++ D) b
+  | BLetP p bs e b => ns D e /\ site_ok D p bs /\ nsb (bs ++ D) b
   | BExp e b => ns D e /\ nsb D b
   end.
 
@@ -165,6 +204,10 @@ Definition memb (x : name) (l : list name) : bool := existsb (N.eqb x) l.
 Fixpoint nodupb (l : list name) : bool := match l with [] => true | x :: t => negb (memb x t) && nodupb t end.
 Definition el_names (els : list (option name)) : list name :=
   flat_map (fun el => match el with Some x => [x] | None => [] end) els.
+
+Definition inclb (a b : list name) : bool := forallb (fun x => memb x b) a.
+Definition site_okB (D : list name) (p : pat) (bs : list name) : bool :=
+  wfb p && nodupb bs && inclb (binders p) bs && forallb (fun x => negb (memb x D)) bs && top_ok p.
 
 Fixpoint nsB (D : list name) (e : expr) : bool :=
   match e with
@@ -178,10 +221,14 @@ Fixpoint nsB (D : list name) (e : expr) : bool :=
   | ETuple _ es => nssB D es
   | EIf c e1 e2 => nsB D c && nsB D e1 && nsB D e2
   | EBlock b => nsbB D b
+  | EMatch e cs => nsB D e && nsaB D cs
+  | EIfLet p bs e e1 e2 => nsB D e && site_okB D p bs && nsB (bs ++ D) e1 && nsB (bs ++ D) e2
   | ELambda _ _ _ _ => true
   end
 with nssB (D : list name) (es : exprs) : bool :=
   match es with ENil => true | ECons e t => nsB D e && nssB D t end
+with nsaB (D : list name) (cs : arms) : bool :=
+  match cs with ANil => true | ACons p bs body t => site_okB D p bs && nsB (bs ++ D) body && nsaB D t end
 with nsbB (D : list name) (b : blk) : bool :=
   match b with
   | BEndU => true
@@ -191,5 +238,6 @@ with nsbB (D : list name) (b : blk) : bool :=
   | BLetT bs els e b =>
       nsB D e && nodupb bs && forallb (fun x => memb x bs) (el_names els) && forallb (fun x => memb x (el_names els)) bs &&
       forallb (fun x => negb (memb x D)) bs && nsbB (bs ++ D) b
+  | BLetP p bs e b => nsB D e && site_okB D p bs && nsbB (bs ++ D) b
   | BExp e b => nsB D e && nsbB D b
   end.
